@@ -136,6 +136,12 @@ class Ctx:
         self.assign[name] = w
         return S(v, w)
 
+    def var_w(self, name, w, lo=None, hi=None):
+        """variable whose default witness is the given number (so that a float re-run of the harness can use the same value)"""
+        if name not in self.vars and name not in self.forced:
+            self.assign.setdefault(name, tofrac(w))
+        return self.var(name, lo, hi)
+
     def fresh(self, prefix, w=None):
         """Unconstrained fresh real (for stubs: quadrature results, PDFs, external functions)."""
         n = f"{prefix}!{len(self.vars)}"
@@ -251,8 +257,7 @@ class Ctx:
         if key not in self._ufuns:
             self._ufuns[key] = z3.Function(name, *([z3.RealSort()] * (len(args) + 1)))
         f = self._ufuns[key]
-        h = random.Random(hash((name, tuple(a.w for a in args))))
-        return S(f(*[a.t for a in args]), Fr(h.randint(-3000, 3000), 1009))
+        return S(f(*[a.t for a in args]), tofrac(ufun_witness(name, [float(a.w) for a in args])))
 
     def _atom_facts(self, at, arg):
         v = at.var
@@ -288,6 +293,12 @@ class Ctx:
 
     def facts(self):
         return list(self.domain) + list(self.atom_facts)
+
+
+def ufun_witness(name, float_args):
+    """the pseudo-value an uninterpreted function takes at a witness point (shared with float re-runs of a harness)"""
+    h = random.Random(hash((name, tuple(round(float(a), 9) for a in float_args))))
+    return h.randint(-3000, 3000) / 1009.0
 
 
 def _exact_sqrt(c):
